@@ -100,6 +100,9 @@ def analyze(scen, r, props):
             running.pop(jobid, None)
             if code == 0:
                 ok_body.add(jobid)
+        elif k == "released":
+            # a job "runs under the token" until it gives up its run lock (what is left is the exit of the interpreter)
+            live.pop(e[3], None)
         elif k == "exit":
             _, name, jobid, vpid, code = e
             live.pop(vpid, None)
